@@ -118,6 +118,17 @@ Fixpoint jseq_list (l : list jres) : jres :=
   | [] => JOk []
   | a :: r => match a with JOk s1 => match jseq_list r with JOk s2 => JOk (s1 ++ s2) | x => x end | x => x end
   end.
+(* = jseq_list (map f l), but an element is only computed when all before it returned (the
+   evaluation of the cases is call-by-value; as in Go, nothing runs after the first failure) *)
+Section JseqMap.
+  Context {A : Type}.
+  Variable f : A -> jres.
+  Fixpoint jseq_map (l : list A) : jres :=
+    match l with
+    | [] => JOk []
+    | a :: r => match f a with JOk s1 => match jseq_map r with JOk s2 => JOk (s1 ++ s2) | x => x end | x => x end
+    end.
+End JseqMap.
 
 (* ====================================================================== *)
 (* (b) json.Marshal                                                        *)
@@ -133,9 +144,9 @@ Section MarshalTree.
     match t with
     | Node m _ kids =>
         if is_errdef g m then jcons d (re m (S d))
-        else jcons d (jseq_list (map (marshal_node (S d)) kids))
+        else jcons d (jseq_map (marshal_node (S d)) kids)
     end.
-  Definition marshal_nodes (d : nat) (ts : list tree) : jres := jseq_list (map (marshal_node d) ts).
+  Definition marshal_nodes (d : nat) (ts : list tree) : jres := jseq_map (marshal_node d) ts.
 End MarshalTree.
 
 (* json.Marshal(err) for the errdef node n: MarshalErrorJSON encodes
@@ -169,17 +180,17 @@ Fixpoint gs_walk (fuel : nat) (g : graph) (inl : list nat) (n : nat) : jres :=
       match nth_error g n with
       | None => JOut
       | Some nd =>
-          jcons n (jseq_list (map (fun oc => match oc with
-                                             | None => JOk []                       (* error(nil) *)
-                                             | Some c => if inb c inl then gs_walk f g inl c else JOk []
-                                             end) (causes_of nd)))
+          jcons n (jseq_map (fun oc => match oc with
+                                        | None => JOk []                       (* error(nil) *)
+                                        | Some c => if inb c inl then gs_walk f g inl c else JOk []
+                                        end) (causes_of nd))
       end
   end.
 (* GoString of the errdef node: [direct] = the causes held in the struct itself (definedError.cause
    for Wrap and for Join with a single non-nil cause - a joinError is a pointer;
    unmarshaledError.causes) *)
 Definition gostring_g (fuel : nat) (g : graph) (inl : list nat) (direct : list nat) : jres :=
-  jseq_list (map (fun c => if inb c inl then gs_walk fuel g inl c else JOk []) direct).
+  jseq_map (fun c => if inb c inl then gs_walk fuel g inl c else JOk []) direct.
 Definition gs_fuel (g : graph) : nat := S (List.length g).
 
 (* ====================================================================== *)
